@@ -1820,6 +1820,19 @@ static void output_cmt_start(cmt_reflow &cmt, Chunk *pc)
       //        __func__, pc->GetOrigLine(), pc->GetColumn(), cmt.column);
       pc->SetColumn(cmt.column);
    }
+
+   // a comment written directly behind a '/' would fuse with it into a comment opener
+   if (  !cpd.did_newline
+      && cmt.column <= cpd.column)
+   {
+      Chunk *prev = pc->GetPrev();
+
+      if (  prev->Len() > 0
+         && prev->GetStr()[prev->Len() - 1] == '/')
+      {
+         cmt.column = cpd.column + 1;
+      }
+   }
    cmt.base_col = cmt.column;
 
    // LOG_FMT(LSYS, "%s: -- brace=%d base=%d col=%d\n",
